@@ -50,6 +50,7 @@ type Exec struct {
 	assumeSeen  map[*T]bool
 	Obls        []*Obligation
 	classSorts  map[string]*term.Sort
+	classTy     map[string]types.Type
 	building    bool
 
 	entry      *State // snapshot at function entry (for old())
@@ -67,7 +68,7 @@ type Exec struct {
 }
 
 func NewExec(p *Program, fn *ssa.Function, mode Mode) *Exec {
-	return &Exec{P: p, Fn: fn, Mode: mode, Init: p.Init, assumeSeen: map[*T]bool{}, classSorts: map[string]*term.Sort{},
+	return &Exec{P: p, Fn: fn, Mode: mode, Init: p.Init, assumeSeen: map[*T]bool{}, classSorts: map[string]*term.Sort{}, classTy: map[string]types.Type{},
 		oblCount: map[string]int{}, callCount: map[string]int{}, MaxSteps: 200_000_000}
 }
 
@@ -82,6 +83,9 @@ func (x *Exec) note(format string, args ...interface{}) {
 func (x *Exec) assumeOnce(t *T) {
 	if t == term.True || x.assumeSeen[t] {
 		return
+	}
+	if t.HasBound() && !closed(t) {
+		return // a fact about a term under a binder cannot be stated globally
 	}
 	x.assumeSeen[t] = true
 	x.Assumptions = append(x.Assumptions, t)
@@ -106,6 +110,12 @@ func (x *Exec) oblName(kind, detail string) string {
 
 // oblige emits an obligation unless it is trivially true.
 func (x *Exec) oblige(st *State, kind, detail string, cond *T, pos token.Pos) {
+	if x.Mode == ModeInit {
+		if cond == term.False && st.PC == term.True {
+			x.fail("package initialisation fails: %s %s", kind, detail)
+		}
+		return
+	}
 	if cond == term.True || st.PC == term.False {
 		// still count it as generated+discharged syntactically
 		x.Obls = append(x.Obls, &Obligation{Name: x.oblName(kind, detail), Kind: kind, PC: st.PC, Cond: term.True, NAssume: len(x.Assumptions), Pos: pos})
@@ -255,6 +265,14 @@ func (x *Exec) runFunction(st *State, fn *ssa.Function, args []Val, binds []Val)
 	}
 	st.Frames = append(st.Frames, fr)
 	depth := len(st.Frames)
+	// inlined leaf functions with ghost `sets` clauses: remember the entry state
+	var ghostSpec *contract.FuncSpec
+	var entrySt *State
+	if sp := x.P.Specs[fn]; sp != nil && depth > 1 && len(sp.Sets) > 0 {
+		ghostSpec = sp
+		entrySt = st.clone()
+		entrySt.Frames = entrySt.Frames[:depth-1]
+	}
 	var rets []retRec
 	x.runRegion(st, fn.Blocks[0], nil, nil, &rets, depth)
 	if len(rets) == 0 {
@@ -280,6 +298,9 @@ func (x *Exec) runFunction(st *State, fn *ssa.Function, args []Val, binds []Val)
 	}
 	out.PC = term.Or(pcs...)
 	out.Frames = out.Frames[:depth-1]
+	if ghostSpec != nil {
+		x.applyGhostSets(out, fn, ghostSpec, entrySt, args, vals)
+	}
 	return out, vals
 }
 
@@ -993,4 +1014,34 @@ func (x *Exec) doTypeAssert(st *State, ins *ssa.TypeAssert) {
 	}
 	x.oblige(st, "typeassert", "", ok, ins.Pos())
 	x.set(st, ins, res)
+}
+
+// closed reports whether every bound variable of t is bound by a quantifier inside t.
+func closed(t *T) bool {
+	var rec func(t *T, env map[*T]bool) bool
+	rec = func(t *T, env map[*T]bool) bool {
+		if !t.HasBound() {
+			return true
+		}
+		if t.Op == term.OBound {
+			return env[t]
+		}
+		if t.Op == term.OForall || t.Op == term.OExists {
+			e2 := map[*T]bool{}
+			for k := range env {
+				e2[k] = true
+			}
+			for _, b := range t.Bnd {
+				e2[b] = true
+			}
+			return rec(t.Args[0], e2)
+		}
+		for _, a := range t.Args {
+			if !rec(a, env) {
+				return false
+			}
+		}
+		return true
+	}
+	return rec(t, map[*T]bool{})
 }
